@@ -139,9 +139,9 @@ prop("C08", ["DivanModel.Props.C08"], BENCH_LABS + [lab("sbench-p250", 700, 1500
      level_note="Trusted: Lean kernel; bench lab; std::sync::Barrier semantics (release wait k only when all arrived) are the model's assumption; interleavings are those the OS scheduler produced (the theorem covers all, the lab samples).",
      trusted=BENCH_TRUST)
 
-prop("C20", ["DivanModel.Props.C20"], [lab("paint", 800, 20000), lab("reg", 1000, 30000)],
-     level_text="Exact model of tree_painter.rs (prefix, depth, growing column widths, separators and trailing-space rule, all row kinds) compared byte for byte with the real TreePainter on random operation sequences with every combination of counter / max-alloc / tally rows, non-ASCII and over-long names (paint lab), and with the real front end's output for random programs under list/test (exact text) and bench (cells replaced by class tokens) in the registry lab. Theorems: the prefix invariant (three columns per open non-top-level parent, restored by finish_parent, a bar exactly when the opened parent has later siblings, leaves never touch it); painting a tree by the run_tree walk emits exactly one line per node in depth-first order with the glyphs of its true position (each_node_once); the depth-annotated preorder of any forest parses back to it (parse_render). Round 2-3 specs on the printed text: glyphs and bars match the true position (treeGlyphsOk); every module / group / benchmark node above a shown case is printed exactly once; the rows are in the documented sorted depth-first order (applied when the uniqueness hypotheses of Props/C16Order hold on that tree); every computed allocation section and cell is printed.",
-     level_note="Trusted: Lean kernel; labs. The serialised cells are produced by the lab from the real formatting functions (C18) and handed to the model; the character-level decoding of a line (glyphs -> depth) and the splitting of a row on ' | ' are not yet theorems (names must be 'clean': no box glyphs / double spaces). F9: under --list a benchmark with args is printed without its argument cases (recorded finding).",
+prop("C20", ["DivanModel.Props.C20", "DivanModel.Props.C20Codec"], [lab("paint", 800, 20000), lab("reg", 1000, 30000)],
+     level_text="Exact model of tree_painter.rs (prefix, depth, growing column widths, separators and trailing-space rule, all row kinds) compared byte for byte with the real TreePainter on random operation sequences with every combination of counter / max-alloc / tally rows, non-ASCII and over-long names (paint lab), and with the real front end's output for random programs under list/test (exact text) and bench (cells replaced by class tokens) in the registry lab. Theorems: the prefix invariant (three columns per open non-top-level parent, restored by finish_parent, a bar exactly when the opened parent has later siblings, leaves never touch it); painting a tree by the run_tree walk emits exactly one line per node in depth-first order with the glyphs of its true position (each_node_once); the depth-annotated preorder of any forest parses back to it (parse_render). Round 2-3 specs on the printed text: glyphs and bars match the true position (treeGlyphsOk); every module / group / benchmark node above a shown case is printed exactly once; the rows are in the documented sorted depth-first order (applied when the uniqueness hypotheses of Props/C16Order hold on that tree); every computed allocation section and cell is printed. Round 5: the text decoder those specs run (Driver/Reg.parseTLine = LineCodec.parseRow) is proved to invert the rendering of every painted line (line_reads_back), and the decoded rows of a painted tree to rebuild exactly that tree (printed_tree_reads_back).",
+     level_note="Trusted: Lean kernel; labs. The serialised cells are produced by the lab from the real formatting functions (C18) and handed to the model; Round 5: the character-level decoding of a row is a theorem about the driver's own decoder (Props/C20Codec: LineCodec.parseRow inverts the painter's prefix + branch glyph + name for every prefix and every 'clean' name - no double blank, ' │' or ' T │' inside, no trailing blank; top-level names must not start with a glyph or blank -, and the rows of any painted tree parse back to that tree); the splitting of the cells after the name on ' │ ' is still only exercised. F9: under --list a benchmark with args is printed without its argument cases (recorded finding).",
      trusted=REG_TRUST)
 
 POOL_TRUST = ["pool lab: the real util/thread/pool.rs compiled against an instrumented std drop-in (hook H5, feature verif_shim): every atomic / channel / park / unpark / spawn operation is performed and logged under one global lock (a linearisation), with seeded delays around each and injected spurious park returns; what is exercised is divan's use of the primitives, not std's implementation of them"]
